@@ -1,4 +1,4 @@
-\* thorough: 2 clients x 1 message + ping, pool of 2, heartbeat on (timeouts, dropped sockets), chat replies
+\* thorough: 2 clients x 1 message, pool of 2, heartbeat on (timeouts of live and dead streams, dropped sockets)
 CONSTANTS
   c1 = c1
   c2 = c2
@@ -8,10 +8,10 @@ CONSTANTS
   w3 = w3
   Clients <- CS2
   MaxMsgs = 1
-  MaxPings = 1
+  MaxPings = 0
   Workers <- WS2
   Heartbeat = TRUE
-  Reply <- ReplyChat
+  Reply <- ReplyNone
   ExtScript <- ExtNone
   Mode = "free"
   ShutdownMode = "any"
@@ -19,5 +19,6 @@ CONSTANTS
 INIT Init
 NEXT Next
 SYMMETRY Sym
+VIEW MCView
 INVARIANTS TypeOK CurInStreams DispatchInvs InvocationInvs DeliveryInvs QuiescentComplete
 CHECK_DEADLOCK FALSE
